@@ -69,4 +69,25 @@ theorem respFrame_accept (fid i a : Nat) (ha : a < 65536) :
   congr 1
   omega
 
+/-! ### evaluation helpers for the concrete instances of NrfProps/C17.lean -/
+
+/-- an outcome is `.ok ()` / `.ok v` (Boolean tests the kernel / the evaluator can run) -/
+def isOkUnit : Except PyErr Unit → Bool
+  | .ok () => true
+  | _ => false
+
+def isOkInt (v : Int) : Except PyErr Int → Bool
+  | .ok w => decide (w = v)
+  | _ => false
+
+theorem isOkUnit_eq {r : Except PyErr Unit} (h : isOkUnit r = true) : r = .ok () := by
+  cases r with
+  | ok u => rfl
+  | error e => cases h
+
+theorem isOkInt_eq {v : Int} {r : Except PyErr Int} (h : isOkInt v r = true) : r = .ok v := by
+  cases r with
+  | ok w => exact congrArg Except.ok (of_decide_eq_true h)
+  | error e => cases h
+
 end Nrf.Net.Join
